@@ -285,8 +285,9 @@ def make_H(form, dtype, sup, rng):
     """Hamiltonian / Liouvillian in the given input form"""
     import qutip as q
     H0, H1, _ = mats(rng)
+    H1 = H1 + H1.dag()                       # physical (Hermitian) generators
     if sup:
-        H0, H1 = q.liouvillian(H0), q.liouvillian(H1 + H1.dag())
+        H0, H1 = q.liouvillian(H0), q.liouvillian(H1)
     H0, H1 = H0.to(dtype), H1.to(dtype)
     if form == "const":
         return H0
@@ -534,6 +535,18 @@ def scenarios(rng, quick):
             d["options"] = {"store_states": True}
             return d
         add("deprecated-kwarg:%s" % fn_name, SITE_DEP, b_dep, fn)
+
+    # a generator that does not preserve hermiticity, state with unknown
+    # isherm cache: the answer must not depend on the call being the first
+    def b_nonherm():
+        d = b_solve("const", "CSR", False, "dm", "C", False)()
+        d["H"] = q.QobjEvo([q.sigmaz(), [q.Qobj(np.array([[0, 1], [0, 0]])), f_t]])
+        d["c_ops"] = [q.sigmam()]
+        d["e_ops"] = [q.sigmaz()]
+        return d
+    add("nonherm:mesolve", "qutip/solver/solver_base.py:Solver._prepare_state", b_nonherm,
+        lambda i: q.mesolve(i["H"], i["state"], i["tlist"], c_ops=i["c_ops"], e_ops=i["e_ops"],
+                            options=i["options"]).expect)
 
     # ---- solver classes, reuse patterns
     def run_twice(cls_build):
@@ -846,9 +859,15 @@ def gen_sequence(rng, n):
         x = rng.choice(names)
         y = rng.choice(defined)
         z = rng.choice(defined)
+        if op == "matmul" and "evo" in (types[y], types[z]):
+            qs = [v for v in defined if types[v] == "qobj"]
+            if not qs:
+                op = "add"
+            else:
+                z = rng.choice(qs)          # keep the number of terms bounded
         if op in ("iadd", "imul2", "imatmul"):
             x = rng.choice(defined)
-            if op == "imatmul" and types[x] != "evo":
+            if op == "imatmul" and (types[x] != "evo" or types[z] != "qobj"):
                 op = "iadd"
             prog.append((op, x, x, z))
             if types[x] == "qobj" and op == "iadd" and types[z] == "evo":
